@@ -13,7 +13,9 @@ MANIFEST = {
             "(key != invalid key, Insert only of keys not yet present, field zero before Write*, Pivot32 product < 2^64). "
             "Probing table: hash arbitrary, any bucket count >= 1, keys/values naturals; AutoProbing's double-precision "
             "threshold `buckets * 0.9` is taken as floor(9*buckets/10) and its initial size uses float32 — both exercised by "
-            "the correspondence stream on every construction/doubling, not proved.",
+            "the correspondence stream on every construction/doubling, not proved.  Vocabularies: words are their 64-bit "
+            "MurmurHash (abstract, injective and non-zero on the occurring words as explicit hypotheses); std::sort inside "
+            "JointSort is replaced by any sort (result unique on distinct hashes, proved).",
     "technique": "Lean 4 proof (induction/invariants over an executable model) + differential correspondence with the real code",
 }
 
@@ -189,7 +191,10 @@ def gen_sorted_array(rng, bits):
 
 def search_stream(ctx, hexe, dexe, n_cases):
     found = False
+    n_viol = 0
     for ci in range(n_cases):
+        if n_viol >= 3:
+            break
         bits = ctx.rng.choice([32, 64])
         style, a = gen_sorted_array(ctx.rng, bits)
         top = (1 << bits) - 1
@@ -216,7 +221,7 @@ def search_stream(ctx, hexe, dexe, n_cases):
             oracle.append((len(ops), want)); ops.append("bsuf64 %d %d" % (k, bound))
             if bits == 32:
                 oracle.append((len(ops), want)); ops.append("bsuf32 %d %d" % (k, bound))
-        (rc1, o1, e1), (rc2, o2, e2) = stream.both(hexe, dexe, ops)
+        (rc1, o1, e1), (rc2, o2, e2) = stream.both(hexe, dexe, ops, timeout=20)
         ctx.count(("search", tuple(ops)), nontrivial=len(a) >= 2)
         ctx.hist("search.style", style)
         ctx.hist("search.bits", bits)
@@ -226,6 +231,7 @@ def search_stream(ctx, hexe, dexe, n_cases):
             ctx.violation("harness died on search script (rc=%s): %s" % (rc1, e1[-400:]),
                           {"stream": "search", "ops": ops, "stderr": e1[-2000:]})
             found = True
+            n_viol += 1
             continue
         for idx, want in oracle:
             if idx >= len(o1) or o1[idx] != want:
@@ -234,6 +240,7 @@ def search_stream(ctx, hexe, dexe, n_cases):
                     {"stream": "search", "ops": [ops[0], ops[idx]], "impl": o1[idx] if idx < len(o1) else None,
                      "expected": want})
                 found = True
+                n_viol += 1
                 break
         d = stream.first_diff(o1, o2)
         if d is not None or rc2 != 0:
@@ -242,6 +249,7 @@ def search_stream(ctx, hexe, dexe, n_cases):
                            "impl": o1[d] if d is not None and d < len(o1) else None,
                            "model": o2[d] if d is not None and d < len(o2) else None}, no_input=not found)
             found = True
+            n_viol += 1
     return found
 
 
@@ -908,7 +916,7 @@ def vocab_stream(ctx, vexe, dexe, n_cases):
         if ci < 2:
             ctx.sample({"stream": tag, "ops": ops[:10], "impl": o1[:10]})
         if rc1 != 0:
-            small = stream.ddmin(ops, lambda l: stream.run_lines(vexe, l, timeout=5)[0] == rc1, keep_prefix=1, max_tests=40)
+            small = stream.ddmin(ops, lambda l: stream.run_lines(vexe, l, timeout=5)[0] == rc1, keep_prefix=2, max_tests=40)
             rcs, _, es = stream.run_lines(vexe, small, timeout=5)
             ctx.violation(("vocabulary loops (timeout)" if rcs == "timeout" else
                            "harness died on vocabulary script (rc=%s): %s" % (rcs, es[-400:])),
@@ -920,8 +928,8 @@ def vocab_stream(ctx, vexe, dexe, n_cases):
         if bad:
             def fails(l):
                 rc, o, _ = stream.run_lines(vexe, l, timeout=5)
-                return rc != 0 or vocab_mismatch(l, o) is not None
-            small = stream.ddmin(ops, fails, keep_prefix=1, max_tests=120)
+                return rc == 0 and vocab_mismatch(l, o) is not None
+            small = stream.ddmin(ops, fails, keep_prefix=2, max_tests=120)
             rc, o, _ = stream.run_lines(vexe, small, timeout=5)
             b2 = vocab_mismatch(small, o) if rc == 0 else None
             idx = b2[0] if b2 else len(small) - 1
@@ -932,7 +940,7 @@ def vocab_stream(ctx, vexe, dexe, n_cases):
             n_viol += 1
         d = stream.first_diff(o1, o2)
         if d is not None or rc2 != 0:
-            small = stream.ddmin(ops, lambda l: stream.disagree(vexe, dexe, l, timeout=20), keep_prefix=1, max_tests=120)
+            small = stream.ddmin(ops, lambda l: stream.disagree(vexe, dexe, l, timeout=20), keep_prefix=2, max_tests=120)
             (r1, a1, _), (r2, a2, _) = stream.both(vexe, dexe, small, timeout=20)
             d2 = stream.first_diff(a1, a2)
             ctx.violation("model and implementation disagree on a vocabulary operation",
@@ -1034,11 +1042,19 @@ def _streams(ctx, problems, hexe, dexe, vexe):
                        "(initial size 0..300, up to 400 keys), identity / multiplicative / shift hash, invalid key 0 or not, keys "
                        "crafted to share ideal buckets and to cluster at the end of the table; non-trivial when >= 3 keys are "
                        "stored and at least one sits away from its ideal bucket; answers, size, content and the exact slot "
-                       "layout compared")
+                       "layout compared.  vocab: op scripts on the real lm::ngram::GrowableVocab (initial sizes 0..5000), "
+                       "ProbingVocabulary (bucket count from Size(entries, multiplier), multipliers 1.01..5, header count "
+                       "sometimes too small: must throw) and SortedVocabulary (Insert, FinishedLoading with tagged weights, "
+                       "Index); words from a pool of 3000 (incl. <unk>/<UNK>/<s>/</s> present or absent and the 40 pairs with "
+                       "the closest MurmurHash values); the model works on the 64-bit hashes reported by the real code; "
+                       "oracle: first occurrence / file order / hash rank by word string; non-trivial when >= 3 types")
     ctx.assumptions += ["little-endian x86-64 (BitPackShift identity branch)",
                         "target bits zero before Write* and value < 2^len (documented contract) for the property oracle; "
                         "contract-violating writes are compared with the model only",
                         "probing: the invalid key is never inserted and Insert is only called with keys not yet present "
                         "(documented contract); 64-bit keys, values and hashes; AutoProbing's threshold `buckets * 0.9` in "
-                        "double precision equals floor(9*buckets/10) (compared on every doubling through the bucket count)"]
+                        "double precision equals floor(9*buckets/10) (compared on every doubling through the bucket count)",
+                        "vocab: MurmurHash64A is abstract (the real values are fed to the model); it is injective and non-zero "
+                        "on the word pool (checked when the pool is built; colliding or zero-hash words are dropped); words "
+                        "other than <unk>/<UNK> are inserted once into ProbingVocabulary / SortedVocabulary (ARPA contract)"]
     flow.report_obligation_failures(ctx, problems, found)
